@@ -298,6 +298,11 @@ func (o *Obligation) Text(solver string) string {
 		return nullRe.ReplaceAllString(t, "${1}0${2}")
 	}
 	b.WriteString(fix(body))
+	if o.consistencyOnly {
+		// vacuity guard: the assumptions of this obligation alone (no path guard, no goal) must be satisfiable
+		b.WriteString("(check-sat)\n")
+		return b.String()
+	}
 	for _, l := range stringLemmas(body + g + " " + goal) {
 		b.WriteString(l + "\n")
 	}
